@@ -557,7 +557,7 @@ class E2E:
             f.write("#!/usr/bin/python3 -u\nimport sys\nfor l in sys.stdin:\n    sys.stdout.write('OK\\n'); sys.stdout.flush()\n")
         os.chmod(d + "/auth.py", 0o755)
         subprocess.run(["chmod", "-R", "a+rX", d])
-        self.squid.start()
+        self.squid.start(wait=90)   # a loaded machine needs more than the default 10 s
         self.n = 0
         self.lock = threading.Lock()
 
